@@ -23,6 +23,11 @@ func TestPaillierBatch(t *testing.T) {
 		ref := key.Ref
 		usePK := rapid.Bool().Draw(t, "encryptWithPublicKey")
 		cnt := rapid.IntRange(2, 5).Draw(t, "count")
+		if id.Bits == 512 && rapid.IntRange(1, 10).Draw(t, "bigBatch") == 10 {
+			// the *Many helpers start one goroutine per item and accept any length >= 2; larger
+			// batches only under the smallest keys (each item costs four Paillier exponentiations)
+			cnt = rapid.SampledFrom([]int{8, 9, 17, 33}).Draw(t, "countBig")
+		}
 		var (
 			ms  []*big.Int
 			rs  []*big.Int
